@@ -1,6 +1,7 @@
 import SqlModel.Pipeline
 import SqlProofs.SplitScript
 import SqlProofs.SplitNonWs
+import SqlProofs.SplitValue
 /-!
 # SqlProofs.Resplit — splitting a returned statement again returns that statement alone
 
@@ -390,5 +391,190 @@ theorem lexStableB_iff (st : List Tok) : lexStableB st = true ↔ LexStable st :
   cases h : lex defaultCfg (pyStrip (stmtText st)).toArray with
   | error e => simp
   | ok ts => simp
+
+/-! ## cutting whitespace *characters* at both ends (what `strip()` does to the text), not only whole whitespace tokens
+
+`strip()` may cut inside a token — typically the line break that ends a trailing `-- comment`.  `cutWs` removes the leading/trailing
+whitespace characters from the token list: tokens that become empty are dropped, one token at each end may be shortened.  `cutOK` records
+that every dropped token was Whitespace-typed and every shortened token is of a type whose value the splitter never reads. -/
+
+theorem sameView_types : ∀ (l l' : List Tok), SameSplitView l l' → l.map (·.tt) = l'.map (·.tt) := by
+  intro l
+  induction l with
+  | nil => intro l' h; cases l' with
+    | nil => rfl
+    | cons _ _ => exact absurd h (by simp [SameSplitView])
+  | cons a t ih =>
+    intro l' h
+    cases l' with
+    | nil => exact absurd h (by simp [SameSplitView])
+    | cons b t' =>
+      obtain ⟨h1, _, h3⟩ := h
+      simp only [List.map_cons, h1, ih t' h3]
+
+theorem hasNonWs_of_types (l l' : List Tok) (h : l.map (·.tt) = l'.map (·.tt)) (hn : HasNonWs l) : HasNonWs l' := by
+  obtain ⟨t, ht, hw⟩ := hn
+  have : t.tt ∈ l'.map (·.tt) := by rw [← h]; exact List.mem_map.mpr ⟨t, ht, rfl⟩
+  obtain ⟨t', ht', htt⟩ := List.mem_map.mp this
+  exact ⟨t', ht', by simp only [Tok.isWhitespace] at hw ⊢; rw [htt]; exact hw⟩
+
+/-- a single-statement run stays one under changes of values the splitter never reads -/
+theorem single_view (cfg : SplitCfg) (l l' : List Tok) (h : Single cfg l) (hv : SameSplitView l l') : Single cfg l' := by
+  obtain ⟨r, hrun, hcur, hdone, hnw⟩ := h
+  have hsh : (splitRun cfg {} l').map shapeOf = (splitRun cfg {} l).map shapeOf := by
+    rw [splitRun_shape, splitRun_shape, shapeRun_blind cfg l l' _ hv]
+  rw [hrun] at hsh
+  cases hr' : splitRun cfg {} l' with
+  | error e => rw [hr'] at hsh; simp [Except.map] at hsh
+  | ok r' =>
+    rw [hr'] at hsh
+    simp only [Except.map, Except.ok.injEq] at hsh
+    have hd : r'.done = [] := by
+      have := congrArg SplitShape.doneLens hsh
+      simp only [shapeOf, hdone, List.map_nil] at this
+      simpa using this
+    have hinv0 : SplitInv ({} : SplitState) :=
+      ⟨fun s hs => absurd hs (by simp), fun h => absurd h (by simp)⟩
+    obtain ⟨e, _⟩ := splitRun_spec cfg l' {} r' hinv0 hr'
+    have hc : r'.cur = l' := by
+      rw [hd] at e
+      simpa using e
+    exact ⟨r', hr', hc, hd, hasNonWs_of_types l l' (sameView_types l l' hv) hnw⟩
+
+theorem sameView_refl' : ∀ l : List Tok, SameSplitView l l := by
+  intro l
+  induction l with
+  | nil => trivial
+  | cons a t ih => exact ⟨rfl, Or.inr rfl, ih⟩
+
+/-- cut leading whitespace characters -/
+def cutLead : List Tok → List Tok
+  | [] => []
+  | t :: ts =>
+    match t.val.dropWhile isSpace with
+    | [] => cutLead ts
+    | v => ⟨t.tt, v⟩ :: ts
+
+def cutLeadOK : List Tok → Bool
+  | [] => true
+  | t :: ts =>
+    match t.val.dropWhile isSpace with
+    | [] => t.isWhitespace && cutLeadOK ts
+    | v => v == t.val || valueBlind t.tt
+
+theorem single_cutLead (cfg : SplitCfg) : ∀ l : List Tok, Single cfg l → cutLeadOK l = true → Single cfg (cutLead l) := by
+  intro l
+  induction l with
+  | nil => intro h _; exact h
+  | cons t ts ih =>
+    intro h hok
+    simp only [cutLead, cutLeadOK] at hok ⊢
+    split at hok
+    · simp only [Bool.and_eq_true] at hok
+      exact ih (single_drop_ws cfg t ts hok.1 h) hok.2
+    · rename_i v hv
+      simp only [Bool.or_eq_true, beq_iff_eq] at hok
+      refine single_view cfg (t :: ts) _ h ⟨rfl, ?_, sameView_refl' ts⟩
+      rcases hok with hok | hok
+      · exact Or.inr hok.symm
+      · exact Or.inl hok
+
+/-- cut trailing whitespace characters (on the reversed token list) -/
+def cutTrailRev : List Tok → List Tok
+  | [] => []
+  | t :: ts =>
+    match pyRStrip t.val with
+    | [] => cutTrailRev ts
+    | v => ⟨t.tt, v⟩ :: ts
+
+def cutTrailOKRev : List Tok → Bool
+  | [] => true
+  | t :: ts =>
+    match pyRStrip t.val with
+    | [] => t.isWhitespace && cutTrailOKRev ts
+    | v => v == t.val || valueBlind t.tt
+
+def cutTrail (l : List Tok) : List Tok := (cutTrailRev l.reverse).reverse
+def cutTrailOK (l : List Tok) : Bool := cutTrailOKRev l.reverse
+
+theorem sameView_snoc (a b : Tok) (htt : a.tt = b.tt) (hv : valueBlind a.tt = true ∨ a.val = b.val) :
+    ∀ l : List Tok, SameSplitView (l ++ [a]) (l ++ [b]) := by
+  intro l
+  induction l with
+  | nil => exact ⟨htt, hv, trivial⟩
+  | cons x t ih => exact ⟨rfl, Or.inr rfl, ih⟩
+
+theorem single_cutTrail (cfg : SplitCfg) : ∀ (n : Nat) (l : List Tok), l.length = n → Single cfg l → cutTrailOK l = true →
+    Single cfg (cutTrail l) := by
+  intro n
+  induction n with
+  | zero => intro l hl h _; have : l = [] := List.length_eq_zero_iff.mp hl; subst this; exact h
+  | succ n ih =>
+    intro l hl h hok
+    have hne : l ≠ [] := by intro e; rw [e] at hl; simp at hl
+    obtain ⟨init, x, rfl⟩ : ∃ init x, l = init ++ [x] := ⟨l.dropLast, l.getLast hne, (List.dropLast_concat_getLast hne).symm⟩
+    simp only [cutTrail, cutTrailOK, List.reverse_append, List.reverse_cons, List.reverse_nil, List.nil_append,
+      List.singleton_append, cutTrailRev, cutTrailOKRev] at hok ⊢
+    split at hok
+    · simp only [Bool.and_eq_true] at hok
+      exact ih init (by simpa using hl) (single_dropLast_ws cfg x init hok.1 h) hok.2
+    · rename_i v hv
+      simp only [List.reverse_cons, List.reverse_reverse, Bool.or_eq_true, beq_iff_eq] at hok ⊢
+      refine single_view cfg (init ++ [x]) _ h (sameView_snoc x ⟨x.tt, pyRStrip x.val⟩ rfl ?_ init)
+      rcases hok with hok | hok
+      · exact Or.inr hok.symm
+      · exact Or.inl hok
+
+/-- the token list after `strip()` of its text -/
+def cutWs (st : List Tok) : List Tok := cutTrail (cutLead st)
+def cutOK (st : List Tok) : Bool := cutLeadOK st && cutTrailOK (cutLead st)
+
+theorem single_cutWs (cfg : SplitCfg) (l : List Tok) (h : Single cfg l) (hok : cutOK l = true) : Single cfg (cutWs l) := by
+  simp only [cutOK, Bool.and_eq_true] at hok
+  exact single_cutTrail cfg _ _ rfl (single_cutLead cfg l h hok.1) hok.2
+
+/-- re-lexing the stripped text gives the statement's tokens with the whitespace characters cut at both ends, and the cut only dropped
+Whitespace-typed tokens and only shortened tokens whose value the splitter never reads -/
+def LexStableC (st : List Tok) : Prop :=
+  lex defaultCfg (pyStrip (stmtText st)).toArray = .ok (cutWs st) ∧ cutOK st = true
+
+def lexStableCB (st : List Tok) : Bool :=
+  cutOK st &&
+  (match lex defaultCfg (pyStrip (stmtText st)).toArray with
+   | .ok ts => ts == cutWs st
+   | .error _ => false)
+
+theorem lexStableCB_iff (st : List Tok) : lexStableCB st = true ↔ LexStableC st := by
+  unfold lexStableCB LexStableC
+  cases h : lex defaultCfg (pyStrip (stmtText st)).toArray with
+  | error e => simp
+  | ok ts => simp [and_comm]
+
+/-- **text-level re-split, under `LexStableC`** -/
+theorem resplit_text_cut (s : Array Cp) (sts : List (List Tok)) (h : lexSplit s = .ok sts) (st : List Tok) (hst : st ∈ sts)
+    (hstable : LexStableC st) :
+    split (pyStrip (stmtText st)).toArray = .ok [pyStrip (stmtText st)] := by
+  unfold lexSplit at h
+  split at h
+  · exact absurd h (by simp)
+  · rename_i ts _
+    have h1 : splitProcess defaultSplitCfg (cutWs st) = .ok [cutWs st] :=
+      (single_cutWs defaultSplitCfg st (resplit_single defaultSplitCfg ts sts h st hst) hstable.2).process
+    obtain ⟨ts', hlex', hflat, _⟩ := lex_ok defaultCfg defaultRulesOK noErrorTypeDefault (pyStrip (stmtText st)).toArray
+    have hst' := hstable.1
+    have hts' : ts' = cutWs st := by
+      rw [hst'] at hlex'; injection hlex' with e; exact e.symm
+    subst hts'
+    have htext : stmtText (cutWs st) = pyStrip (stmtText st) := by simpa [stmtText] using hflat
+    simp only [split, lexSplit, hst', h1, Except.map, List.map_cons, List.map_nil, Function.comp, htext, pyStrip_idem]
+
+/-- either form of lexical stability suffices -/
+theorem resplit_text_any (s : Array Cp) (sts : List (List Tok)) (h : lexSplit s = .ok sts) (st : List Tok) (hst : st ∈ sts)
+    (hstable : (lexStableB st || lexStableCB st) = true) :
+    split (pyStrip (stmtText st)).toArray = .ok [pyStrip (stmtText st)] := by
+  rw [Bool.or_eq_true] at hstable
+  rcases hstable with h1 | h1
+  · exact resplit_text s sts h st hst ((lexStableB_iff st).mp h1)
+  · exact resplit_text_cut s sts h st hst ((lexStableCB_iff st).mp h1)
 
 end Sql
